@@ -17,6 +17,7 @@ var (
 	letterRunes    = []rune("1234567890abcdefghijklmnopqrstuvwxyzABCDEFGHIJKLMNOPQRSTUVWXYZ")
 	randForLock    *rand.Rand
 	getRandForLock sync.Once
+	randForLockMtx sync.Mutex
 )
 
 func randStrForLock() *rand.Rand {
@@ -28,9 +29,12 @@ func randStrForLock() *rand.Rand {
 
 func RandomString(length int) string {
 	r := make([]rune, length)
+	// the source is shared by every goroutine that loads a file or an inline table
+	randForLockMtx.Lock()
 	for i := 0; i < length; i++ {
 		r[i] = letterRunes[randStrForLock().Intn(len(letterRunes))]
 	}
+	randForLockMtx.Unlock()
 	return string(r)
 }
 
